@@ -129,6 +129,31 @@ def fresh_check(assertions, timeout_ms=DEFAULT_TIMEOUT_MS, want_model=False, sta
     return "unknown", None
 
 
+def term_vars(t, cache):
+    """frozenset of uninterpreted constant names occurring in t (memoised; cache keeps the AST alive)"""
+    key = ("V", t.get_id())
+    hit = cache.get(key)
+    if hit is not None and hit[1].eq(t):
+        return hit[0]
+    out = set()
+    seen = set()
+    stack = [t]
+    while stack:
+        x = stack.pop()
+        xid = x.get_id()
+        if xid in seen:
+            continue
+        seen.add(xid)
+        if z3.is_const(x):
+            if x.decl().kind() == z3.Z3_OP_UNINTERPRETED:
+                out.add(x.decl().name())
+        else:
+            stack.extend(x.children())
+    fs = frozenset(out)
+    cache[key] = (fs, t)
+    return fs
+
+
 class Ctx:
     """state of one path execution"""
 
@@ -153,19 +178,43 @@ class Ctx:
         return len(self.pc)
 
     def feasible(self, cond):
-        """is pc /\\ cond satisfiable?  True / False;  raises SolverUnknown"""
-        key = ("F", tuple(c.get_id() for c in self.pc), cond.get_id())
+        """is pc /\\ cond satisfiable?  True / False;  raises SolverUnknown
+
+        Only the conjuncts of the pc that (transitively) share a symbol with `cond` are sent to the solver
+        (constraint independence: the pc is satisfiable by construction, so the rest cannot matter)."""
+        rel = self.relevant(cond)
+        key = ("F", tuple(c.get_id() for c in rel), cond.get_id())
         hit = self.cache.get(key)
         if hit is not None:
             self.stats.cache_hits += 1
             return hit[0]
-        r, _ = fresh_check(self.pc + [cond], self.timeout_ms, stats=self.stats)
+        r, _ = fresh_check(rel + [cond], self.timeout_ms, stats=self.stats)
         if r == "unknown":
             raise SolverUnknown(f"feasibility unknown: {str(cond)[:200]}")
         val = r == "sat"
         # keep ASTs alive: z3 recycles ids
-        self.cache[key] = (val, list(self.pc), cond)
+        self.cache[key] = (val, rel, cond)
         return val
+
+    def relevant(self, *terms):
+        """conjuncts of the pc sharing symbols (transitively) with the given terms, in pc order"""
+        want = set()
+        for t in terms:
+            want |= term_vars(t, self.cache)
+        if not want:
+            return []
+        pcv = [term_vars(c, self.cache) for c in self.pc]
+        chosen = [False] * len(self.pc)
+        changed = True
+        while changed:
+            changed = False
+            for i, vs in enumerate(pcv):
+                if not chosen[i] and vs & want:
+                    chosen[i] = True
+                    if not vs <= want:
+                        want |= vs
+                        changed = True
+        return [c for c, ch in zip(self.pc, chosen) if ch]
 
     def add_pc(self, cond):
         self.pc.append(cond)
